@@ -27,12 +27,12 @@ SLICES_QUICK = [
     ("small lengths, 2 msgs x 2 frags", {"Lens": "{0, 1, 126}", "MaxMsgs": 2, "MaxFrags": 2, "MaxCtl": 0, "MaxFrames": 4}, 4, 3),
     ("all large classes, 1 msg x 2 frags", {"Lens": "{125, 65535, 65536, 70000}", "MaxMsgs": 1, "MaxFrags": 2, "MaxCtl": 0, "MaxFrames": 2}, 1, 1),
     ("3 fragments, control at a gap", {"Lens": "{1, 126}", "MaxMsgs": 1, "MaxFrags": 3, "MaxCtl": 1, "MaxFrames": 4}, 3, 2),
-    ("64-bit class with controls", {"Lens": "{0, 65536}", "MaxMsgs": 2, "MaxFrags": 2, "MaxCtl": 1, "MaxFrames": 4}, 6, 2),
+    ("64-bit class with controls", {"Lens": "{0, 65536}", "MaxMsgs": 1, "MaxFrags": 2, "MaxCtl": 1, "MaxFrames": 3}, 2, 2),
 ]
 SLICES_THOROUGH = [
     ("5 length classes, 2 msgs x 2 frags, 1 control", {"Lens": "{0, 1, 125, 126, 65536}", "MaxMsgs": 2, "MaxFrags": 2, "MaxCtl": 1, "MaxFrames": 5}, 4, 6),
     ("all 7 classes, 1 msg x 2 frags, 1 control", {"Lens": "{0, 1, 125, 126, 65535, 65536, 70000}", "MaxMsgs": 1, "MaxFrags": 2, "MaxCtl": 1, "MaxFrames": 3}, 1, 2),
-    ("3 msgs x 3 frags, 2 classes", {"Lens": "{1, 126}", "MaxMsgs": 3, "MaxFrags": 3, "MaxCtl": 0, "MaxFrames": 9}, 4, 4),
+    ("3 msgs x 3 frags, 3 classes", {"Lens": "{0, 1, 126}", "MaxMsgs": 3, "MaxFrags": 3, "MaxCtl": 0, "MaxFrames": 9}, 3, 4),
     ("3 fragments, controls at two gaps", {"Lens": "{1, 126}", "MaxMsgs": 1, "MaxFrags": 3, "MaxCtl": 2, "MaxFrames": 5}, 2, 4),
     ("64-bit classes with controls", {"Lens": "{0, 65536, 70000}", "MaxMsgs": 2, "MaxFrags": 2, "MaxCtl": 1, "MaxFrames": 4}, 2, 2),
 ]
